@@ -206,6 +206,16 @@ def add_extras(net, k):
     if len(net.line):
         net.line["ppsim_float"] = np.linspace(0.1, 0.9, len(net.line))
     pp.set_user_pf_options(net, tolerance_mva=[1e-8, 1e-6][k % 2])
+    # one group whose rows use different reference columns (index for buses/lines, "name" for loads)
+    if len(net.load) and len(net.bus):
+        from pandapower.groups import attach_to_group
+        net.load["name"] = [f"load_{i}" for i in net.load.index]
+        types, idx = ["bus"], [[net.bus.index[k % len(net.bus)]]]
+        if len(net.line):
+            types.append("line")
+            idx.append([net.line.index[k % len(net.line)]])
+        gi = pp.create_group(net, types, idx, name="mixed_refs")
+        attach_to_group(net, gi, "load", [[net.load.name.iloc[k % len(net.load)]]], reference_columns="name")
     return net
 
 
